@@ -166,7 +166,44 @@ BROAD_MODES = {
     "l2_fast_far_x0": ({"reg": {"r": "l2", "lam": 0.1}, "up": dict(_F), "x0": [50.0, -30.0]}, {"regfast"}),
     "l1_fast_sets": ({"reg": {"r": "l1", "lam": 0.05}, "sets": [_SETS2[0]], "up": dict(_F)}, {"regfast", "sets"}),
     "l1_fast_n3": ({"reg": {"r": "l1", "lam": 0.05}, "up": dict(_F), "prob": "nzr3"}, {"regfast", "n3"}),
+    # the 'objective is sufficiently small' exits of the regularised code path (at x0, and later)
+    "l1_fast_abs_tol_x0": ({"reg": {"r": "l1", "lam": 0.05}, "up": dict(_F, **{"model.abs_tol": 1e3})}, {"regfast"}),
+    "l1_fast_abs_tol": ({"reg": {"r": "l1", "lam": 0.05}, "up": dict(_F, **{"model.abs_tol": 2.0})}, {"regfast"}),
+    # the noise-level exit for a deterministic objective (a user-supplied level above the spread of the initial values)
+    "noise_level_deterministic": ({"up": {"noise.quit_on_noise_level": True, "noise.additive_noise_level": 1e6}}, set()),
+    "noise_level_deterministic_soft": ({"up": dict(_R, **{"noise.quit_on_noise_level": True, "noise.additive_noise_level": 1e6})}, set()),
 }
+
+# Geometries in which a trust-region step can increase the model (several active constraints / a finely converged run):
+# with the answer 'best' at one evaluation the abandoned trial point is the best point seen (finding 6).  Returned with an
+# exploration plan (all single deviations with two letters), for the checks that look at results and exits.
+_BOXBALL = [{"t": "ball", "c": [0.7, 1.5], "r": 0.4}, {"t": "box", "l": [-2.0, 1.1], "u": [0.9, 3.0]}]
+_TRINC = {
+    "boxball_fine": {"sets": _BOXBALL, "x0": [-1.2, 0.7], "rhobeg": 0.12, "rhoend": 1e-8},
+    "doc_ballbox": {"sets": [{"t": "ball", "c": [0.7, 1.5], "r": 0.4}], "lo": [-2.0, 1.1], "hi": [0.9, 3.0], "x0": [-1.2, 1.0],
+                    "rhobeg": 0.12, "rhoend": 1e-8},
+    # no constraints at all, but an initial radius of 1e4: with the answer 'best' at evaluation 2 the model of the second
+    # iteration is so badly scaled that the box solver's step increases it in floating point (the *error* exit)
+    "huge_rhobeg": {"rhobeg": 1e4, "rhoend": 1e-2, "maxfun": 25},
+}
+
+
+def tr_increase_cfgs(salt=0, restarts=("none", "hard_new"), probs=("rosen",), maxfun=60, letters=("best", "x0.3")):
+    out = []
+    for name, m in _TRINC.items():
+        for rmode in restarts:
+            for prob in probs:
+                cfg = base_cfg(prob, salt, npt=3, rhobeg=m["rhobeg"], rhoend=m["rhoend"], maxfun=m.get("maxfun", maxfun), memo=True,
+                               tag_mode="trinc/%s/%s" % (name, rmode))
+                for k in ("lo", "hi", "sets", "x0"):
+                    if k in m:
+                        cfg[k] = m[k]
+                up = user_params(3, RESTART_MODES[rmode])
+                if up:
+                    cfg["user_params"] = up
+                cfg["broad_flags"] = (["sets"] if "sets" in m else []) + ["trinc"]
+                out.append((cfg, {"depth": 1, "letters": list(letters)}))
+    return out
 
 
 # Extreme values of every numeric parameter, each inside the feature that reads it.  One mode per value.  Only values that
